@@ -358,7 +358,25 @@ static Type parse_type(Stage1Parser *p) {
 */
 
 /* Parse type annotation with optional element_type output (for arrays) and type_param_name for generics */
+static Type parse_type_with_element_impl(Stage1Parser *p, Type *element_type_out, char **type_param_name_out, FunctionSignature **fn_sig_out, TypeInfo **type_info_out);
+
+/* Types nest (array<array<...>>, fn(fn(...)), tuples): count them against the recursion limit */
 static Type parse_type_with_element(Stage1Parser *p, Type *element_type_out, char **type_param_name_out, FunctionSignature **fn_sig_out, TypeInfo **type_info_out) {
+    p->recursion_depth++;
+    if (p->recursion_depth > MAX_RECURSION_DEPTH) {
+        Token *deep_tok = current_token(p);
+        parser_error(p, deep_tok ? deep_tok->line : 0, deep_tok ? deep_tok->column : 0,
+                "Error at line %d, column %d: Type nesting depth exceeded maximum (%d)\n",
+                deep_tok ? deep_tok->line : 0, deep_tok ? deep_tok->column : 0, MAX_RECURSION_DEPTH);
+        p->recursion_depth--;
+        return TYPE_UNKNOWN;
+    }
+    Type result = parse_type_with_element_impl(p, element_type_out, type_param_name_out, fn_sig_out, type_info_out);
+    p->recursion_depth--;
+    return result;
+}
+
+static Type parse_type_with_element_impl(Stage1Parser *p, Type *element_type_out, char **type_param_name_out, FunctionSignature **fn_sig_out, TypeInfo **type_info_out) {
     Type type = TYPE_UNKNOWN;
     Token *tok = current_token(p);
 
@@ -1528,6 +1546,15 @@ static ASTNode *parse_primary(Stage1Parser *p) {
                 return NULL;
             }
 
+            /* unsafe blocks nest without parse_block: count them against the recursion limit */
+            p->recursion_depth++;
+            if (p->recursion_depth > MAX_RECURSION_DEPTH) {
+                parser_error(p, line, column, "Error at line %d, column %d: Block recursion depth exceeded maximum (%d).\n",
+                        line, column, MAX_RECURSION_DEPTH);
+                p->recursion_depth--;
+                return NULL;
+            }
+
             /* Parse statements in the unsafe block */
             int capacity = 8;
             int count = 0;
@@ -1557,6 +1584,7 @@ static ASTNode *parse_primary(Stage1Parser *p) {
             NLV_LOOP_EXIT(p, unsafe_expr_block);
 #endif
 
+            p->recursion_depth--;
             if (!expect(p, TOKEN_RBRACE, "Expected '}' after unsafe block")) {
                 free(statements);
                 return NULL;
@@ -3115,6 +3143,15 @@ static ASTNode *parse_statement(Stage1Parser *p) {
                 return NULL;
             }
 
+            /* unsafe blocks nest without parse_block: count them against the recursion limit */
+            p->recursion_depth++;
+            if (p->recursion_depth > MAX_RECURSION_DEPTH) {
+                parser_error(p, line, column, "Error at line %d, column %d: Block recursion depth exceeded maximum (%d).\n",
+                        line, column, MAX_RECURSION_DEPTH);
+                p->recursion_depth--;
+                return NULL;
+            }
+
             /* Parse statements in the unsafe block */
             int capacity = 8;
             int count = 0;
@@ -3144,6 +3181,7 @@ static ASTNode *parse_statement(Stage1Parser *p) {
             NLV_LOOP_EXIT(p, unsafe_block);
 #endif
 
+            p->recursion_depth--;
             if (!expect(p, TOKEN_RBRACE, "Expected '}' after unsafe block")) {
                 free(statements);
                 return NULL;
